@@ -26,7 +26,7 @@ func (f *Frame) instr(b *ssa.BasicBlock, bi *BInfo, idx int, ins ssa.Instruction
 		case *types.Array:
 			arr, es := g.elemsArr(u.Elem())
 			a := g.arr(st, arr, es)
-			g.setArr(st, arr, es, sto(a, ref, fmt.Sprintf("((as const %s) %s)", es, g.zero(u.Elem()).S)))
+			g.setArr(st, arr, es, sto(a, ref, g.constArr(es, g.zero(u.Elem()).S)))
 		default:
 			g.store(st, g.cellLoc(ref, pt), g.zero(pt).S)
 		}
@@ -81,7 +81,7 @@ func (f *Frame) instr(b *ssa.BasicBlock, bi *BInfo, idx int, ins ssa.Instruction
 		elem := x.Type().Underlying().(*types.Slice).Elem()
 		base := g.allocRef(st, "mkslice:"+f.tag+":"+x.Name())
 		arr, es := g.elemsArr(elem)
-		g.setArr(st, arr, es, sto(g.arr(st, arr, es), base, fmt.Sprintf("((as const %s) %s)", es, g.zero(elem).S)))
+		g.setArr(st, arr, es, sto(g.arr(st, arr, es), base, g.constArr(es, g.zero(elem).S)))
 		f.safety("index", bi, sAnd(sLe("0", ln.S), sLe(ln.S, cp.S)), "make: 0 <= len <= cap")
 		f.setVal(x, mk(mkSlice(base, "0", ln.S, cp.S), "Slice", x.Type()))
 	case *ssa.Slice:
@@ -91,7 +91,7 @@ func (f *Frame) instr(b *ssa.BasicBlock, bi *BInfo, idx int, ins ssa.Instruction
 		mt := x.Type().Underlying().(*types.Map)
 		va, ha, ks, vs := g.mapArrs(mt)
 		vsort, hsort := fmt.Sprintf("(Array %s %s)", ks, vs), fmt.Sprintf("(Array %s Bool)", ks)
-		g.setArr(st, va, vsort, sto(g.arr(st, va, vsort), ref, fmt.Sprintf("((as const %s) %s)", vsort, g.zero(mt.Elem()).S)))
+		g.setArr(st, va, vsort, sto(g.arr(st, va, vsort), ref, g.constArr(vsort, g.zero(mt.Elem()).S)))
 		g.setArr(st, ha, hsort, sto(g.arr(st, ha, hsort), ref, fmt.Sprintf("((as const %s) false)", hsort)))
 		g.setArr(st, cardArr(mt), "Int", sto(g.arr(st, cardArr(mt), "Int"), ref, "0"))
 		f.setVal(x, mk(ref, "Int", x.Type()))
@@ -578,6 +578,9 @@ func (f *Frame) checkPost(bi *BInfo, vals []T) {
 	env := f.postEnv(bi.out, vals)
 	f.applyGhostSets(fc, env, bi.out)
 	for i, c := range fc.Ensures {
+		if c.skipped() {
+			continue // an obligation of another property's check
+		}
 		v, err := env.evalBool(c.Expr)
 		if err != nil {
 			f.g.resolutionFailure(f, fmt.Sprintf("ensures %s: %v", clauseLabel(c, i), err))
@@ -631,13 +634,24 @@ func (f *Frame) applyGhostSets(fc *FuncContract, env *SpecEnv, st *State) {
 			g.resolutionFailure(f, fmt.Sprintf("ghostset %s: %v", gs.Name, err))
 			continue
 		}
-		gd, ok := g.cs.Ghosts[env.pkgPath()+"::"+gs.Name]
+		gpkg, gname := env.pkgPath(), gs.Name
+		genv := env
+		if i := strings.Index(gs.Name, "."); i >= 0 {
+			// ghost of another package: <pkgname>.<ghost>
+			if p := env.importedPkg(gs.Name[:i]); p != nil {
+				gpkg, gname = p.Path(), gs.Name[i+1:]
+				ge := *env
+				ge.pkg = p
+				genv = &ge
+			}
+		}
+		gd, ok := g.cs.Ghosts[gpkg+"::"+gname]
 		if !ok {
-			g.resolutionFailure(f, fmt.Sprintf("ghostset %s: not a ghost of %s", gs.Name, env.pkgPath()))
+			g.resolutionFailure(f, fmt.Sprintf("ghostset %s: not a ghost of %s", gs.Name, gpkg))
 			continue
 		}
-		t := env.resolveType(gd.Type)
-		ups = append(ups, upd{g.ghostLoc(env.pkgPath(), gs.Name, t), v.S})
+		t := genv.resolveType(gd.Type)
+		ups = append(ups, upd{g.ghostLoc(gpkg, gname, t), v.S})
 	}
 	for _, u := range ups {
 		g.store(st, u.l, u.v)
